@@ -54,7 +54,7 @@ def random_orth(rng, k):
     return Q * np.sign(np.diag(R))
 
 
-def apply_symmetries(Y, n, rng, rotate=True, gauge=True, pad=False, scale_pow=0, order=None):
+def apply_symmetries(Y, n, rng, rotate=True, gauge=True, pad=False, scale_pow=0, order=None, core_shifts=None):
     """Mode rotations (orthogonal), gauge matrices between cores, power-of-two
     scaling, optional rank padding (+Z -Z).  Returns (Y', rotations)."""
     d = len(Y)
@@ -80,6 +80,9 @@ def apply_symmetries(Y, n, rng, rotate=True, gauge=True, pad=False, scale_pow=0,
         q, rem = divmod(scale_pow, d)
         for k in range(d):
             Y[k] = Y[k] * 2.0 ** (q + (rem if k == 0 else 0))
+    if core_shifts is not None:
+        # exact per-core powers of two (zero sum: the denoted tensor is unchanged, single cores leave the ordinary range)
+        Y = [G * 2.0 ** int(s_) for G, s_ in zip(Y, core_shifts)]
     if order == 'F':
         Y = [np.asfortranarray(G) for G in Y]
     elif order == 'C':
